@@ -119,6 +119,19 @@ func checkC02(c C02Case, r *Rec) *Violation {
 			}
 			r.Class(fmt.Sprintf("spelling-%d-%d", how, variant))
 		}
+		// one configuration per case is compiled once more after unrelated work with a very
+		// different config: same input, same program
+		if mask == int(hash64(src)%16) {
+			foreignActivity(int(hash64(src) % 1000))
+			again, v := runCfg("C02", u, src, Build{Mask: mask, How: HowMapAll, Costs: c.Costs})
+			if v != nil {
+				return v
+			}
+			if again.Dump != run.Dump || again.Table != run.Table || !SameOutcome(again.Out, run.Out) {
+				return Violf("C02: compiling the same source with an equal config again, after unrelated compilations with a different config, gives another program\n%s\nfirst:\n%s\n%v\nagain:\n%s\n%v", run.describe(src, u), run.Table, run.Out, again.Table, again.Out)
+			}
+			r.Class("recompiled-after-foreign-activity")
+		}
 		if run.Dump != runs[0].Dump {
 			differ++
 		}
